@@ -309,6 +309,7 @@ def make_strategy(script, observer=None, name='S'):
             self._obs('on_increased_position', order)
 
         def on_reduced_position(self, order):
+            self._obs('on_reduced_position:enter', order)      # before this hook changes any declaration
             e = script.get('on_reduced')
             if e:
                 sign = 1 if self.is_long else -1
@@ -317,6 +318,7 @@ def make_strategy(script, observer=None, name='S'):
             self._obs('on_reduced_position', order)
 
         def on_close_position(self, order):
+            self._obs('on_close_position:enter', order)
             self._obs('on_close_position', order)
 
         # events of the OTHER routes (scripts with an 'on_route' entry; used by oracle sessions only — the Lean model
